@@ -572,8 +572,8 @@ macro_rules! rl_prop {
     };
 }
 
-rl_prop!(C02, "C02", "scenario = window type, limit 1..4, period 20/50ms, timeout 0..3 periods, 2-12 callers arriving in bursts on/near period boundaries plus an idle gap and a burst, cancels while waiting, clock jumps; schedule seeded. Non-trivial: some caller was admitted after waiting or was rejected. Distinct = distinct event-log digest.");
-rl_prop!(C15, "C15", "same scenario space as C02 (incl. limit usize::MAX, timeout Duration::MAX, shuffled builder calls with decoy values, a second service built from the same layer). Non-trivial: some caller was admitted after waiting or was rejected. Distinct = distinct event-log digest.");
+rl_prop!(C02, "C02", "scenario = window type, limit 1..4, period 20/50ms, timeout 0..3 periods, 2-12 callers arriving in bursts on/near period boundaries plus an idle gap and a burst, cancels while waiting, clock jumps; schedule seeded. In one run of six the wrapped service has a capacity (its readiness waits for a free slot, like tower's ConcurrencyLimit). One run in eight is a thread scenario (engine B): 2-4 shuttle threads drive clones of the real service with a no-op waker; every acquisition of a library lock, every operation on a library atomic and every verif::yield_async site is a scheduling point of the seeded thread scheduler; the clock is a paused tokio clock moved by Advance operations. Non-trivial: some caller was admitted after waiting or was rejected. Distinct = distinct event-log digest.");
+rl_prop!(C15, "C15", "same scenario space as C02 (incl. limit usize::MAX, timeout Duration::MAX, shuffled builder calls with decoy values, a second service built from the same layer). In one run of six the wrapped service has a capacity (its readiness waits for a free slot, like tower's ConcurrencyLimit). One run in eight is a thread scenario (engine B): 2-4 shuttle threads drive clones of the real service with a no-op waker; every acquisition of a library lock, every operation on a library atomic and every verif::yield_async site is a scheduling point of the seeded thread scheduler; the clock is a paused tokio clock moved by Advance operations. Non-trivial: some caller was admitted after waiting or was rejected. Distinct = distinct event-log digest.");
 
 #[cfg(test)]
 mod tests {
